@@ -272,4 +272,118 @@ def classShadow (t : Stmt) : List String :=
   | some b => (shadowB b).eraseDups
   | none => []
 
+
+/-! ### the fragment of the `_partial` theorems (decidable; evaluated by the driver for the coverage statistics) -/
+
+def isWithitem : Expr → Bool
+  | .withitem .. => true
+  | _ => false
+
+def isPlainArg : Expr → Bool
+  | .arg _ _ [] => true
+  | _ => false
+
+mutual
+/-- Expressions of the fragment: no comprehension, no parameter annotation, well-formed lambdas. -/
+def FragE : Expr → Bool
+  | .name .. | .const .. | .noneMarker => true
+  | .attr _ v _ _ => FragE v
+  | .subscript _ v s _ => FragE v && FragE s
+  | .call _ f as ks => FragE f && FragEs as && FragEs ks
+  | .keyword _ _ _ v => FragE v
+  | .boolop _ _ vs => FragEs vs
+  | .unary _ _ x => FragE x
+  | .binop _ _ l r => FragE l && FragE r
+  | .compare _ l _ cs => FragE l && FragEs cs
+  | .ifexp _ t b o => FragE t && FragE b && FragE o
+  | .lambda _ args body =>
+      (match args with
+       | .arguments _ po ar va ko kd kw df =>
+           po.all isPlainArg && ar.all isPlainArg && va.all isPlainArg && ko.all isPlainArg && kw.all isPlainArg &&
+           FragEs kd && FragEs df
+       | _ => false) && FragE body
+  | .seq _ _ es _ => FragEs es
+  | .starred _ v _ => FragE v
+  | .namedexpr _ t v => FragE t && FragE v
+  | .comp .. | .comprehension .. | .arguments .. | .arg .. => false
+  | .withitem _ c v => FragE c && FragEs v
+  | .other _ _ _ kids => FragEs kids
+def FragEs : List Expr → Bool
+  | [] => true
+  | e :: es => FragE e && FragEs es
+end
+
+
+mutual
+/-- Statements of the fragment: no async construct, no `EXTRA_LOOP_TEST`, expressions of the fragment. -/
+def FragS : Stmt → Bool
+  | .functionDef _ _ args body decos returns isAsync =>
+      !isAsync &&
+      (match args with
+       | .arguments _ po ar va ko kd kw df =>
+           po.all isPlainArg && ar.all isPlainArg && va.all isPlainArg && ko.all isPlainArg && kw.all isPlainArg &&
+           FragEs kd && FragEs df
+       | _ => false) && FragEs decos && FragEs returns && FragSs body
+  | .classDef _ _ bases kws body decos => FragEs bases && FragEs kws && FragEs decos && FragSs body
+  | .ret _ v => FragEs v
+  | .delete _ ts => FragEs ts
+  | .assign _ ts v => FragEs ts && FragE v
+  | .augAssign _ t _ v => FragE t && FragE v
+  | .annAssign _ t an v _ => FragE t && FragE an && FragEs v
+  | .for_ _ t it body orelse extra isAsync => !isAsync && extra.isEmpty && FragE t && FragE it && FragSs body && FragSs orelse
+  | .while_ _ t body orelse => FragE t && FragSs body && FragSs orelse
+  | .if_ _ t body orelse => FragE t && FragSs body && FragSs orelse
+  | .with_ _ items body isAsync => !isAsync && FragEs items && items.all isWithitem && FragSs body
+  | .raise _ e c => FragEs e && FragEs c
+  | .try_ _ b h o f => FragSs b && FragSs h && FragSs o && FragSs f
+  | .handler _ ty _ body => FragEs ty && FragSs body
+  | .assert_ _ t m => FragE t && FragEs m
+  | .import_ .. | .importFrom .. | .global .. | .nonlocal .. | .pass _ | .break_ _ | .continue_ _ => true
+  | .expr _ v => FragE v
+  | .other _ _ es bs => FragEs es && FragSs bs
+def FragSs : List Stmt → Bool
+  | [] => true
+  | s :: ss => FragS s && FragSs ss
+end
+
+
+mutual
+/-- Statements on which the pinned analysis and Python agree about what a statement binds, besides the
+    deviation classes of `ActivityHyp`: no `except … as name` (the analysis raises: set aside by the
+    property), no bare parenthesised annotation `(x): T` (Python binds nothing, the analysis binds `x`),
+    no `import *` (not allowed inside a function). -/
+def SpecOkS : Stmt → Bool
+  | .functionDef _ _ _ body _ _ _ => SpecOkSs body
+  | .classDef _ _ _ _ body _ => SpecOkSs body
+  | .annAssign _ t _ v simple =>
+      (match t with
+       | .name _ _ c => c != .load && (simple || !v.isEmpty)
+       | _ => true)
+  | .for_ _ _ _ body orelse _ _ => SpecOkSs body && SpecOkSs orelse
+  | .while_ _ _ body orelse => SpecOkSs body && SpecOkSs orelse
+  | .if_ _ _ body orelse => SpecOkSs body && SpecOkSs orelse
+  | .with_ _ _ body _ => SpecOkSs body
+  | .try_ _ b h o f => SpecOkSs b && SpecOkSs h && SpecOkSs o && SpecOkSs f
+  | .handler _ _ name body => name.isEmpty && SpecOkSs body
+  | .import_ _ names => names.all fun a => !(a.2 == "" && a.1 == "*")
+  | .importFrom _ _ names _ => names.all fun a => !(a.2 == "" && a.1 == "*")
+  | .other _ _ _ bs => SpecOkSs bs
+  | _ => true
+def SpecOkSs : List Stmt → Bool
+  | [] => true
+  | s :: rest => SpecOkS s && SpecOkSs rest
+end
+
+
+/-- No two annotations of the run sit on the same node with the same key (decidable form of `UniqueAnnos`). -/
+def uniqueAnnos : List Anno → Bool
+  | [] => true
+  | a :: r => r.all (fun b => !(a.1 == b.1 && a.2.1 == b.2.1)) && uniqueAnnos r
+
+/-- Declaring a name both `global` and `nonlocal` in one block is a SyntaxError; the hypothesis excludes it. -/
+def declsDisjoint (t : Stmt) : Bool :=
+  match blockOf t with
+  | some b => b.globals.all fun x => !b.nonlocals.contains x
+  | none => true
+
 end Malt.Analysis
